@@ -19,7 +19,7 @@ const haveChainOpts = true
 // GOAWAY filter (which the builder installs only when secure serving with HTTP/2 is configured: set here, as a deployment has it).
 func optionsChain(m clusters.Manager) e2e.ChainFunc {
 	inner := gatewayapp.VerifBuildProxyHandlerChainWith(m, gatewayapp.VerifChainOptions{Tracing: true, AccessLog: true,
-		InflightThreshold: 1, QPSThreshold: 1, ThroughputMBThreshold: 1, GoawayChance: 0.5})
+		InflightThreshold: 1, QPSThreshold: 1, ThroughputMBThreshold: 1, GoawayChance: 0.2})
 	return func(apiHandler http.Handler, c *genericapiserver.Config) http.Handler {
 		if c.SecureServing == nil {
 			c.SecureServing = &genericapiserver.SecureServingInfo{}
